@@ -655,6 +655,12 @@ func runHGWith(r *Result, thorough bool, prop string, rng *rand.Rand) {
 		r.Compare(sc.cs[0])
 		sc.close()
 	}
+	if prop == "C02" {
+		// store level: more blocks than the cache holds, late signatures saved on old blocks
+		for k := 0; k < 3; k++ {
+			storeRewriteCase(r, rng, 900+k)
+		}
+	}
 	if r.Stat("rounds_decided") == 0 {
 		r.CoverageHoles = append(r.CoverageHoles, "no scenario reached a decided round")
 	}
